@@ -18,6 +18,9 @@ def verdict (_ : Unit) (line : String) : Unit × String :=
   if (impl.splitOn "panic").length > 1 then ((), "FAIL panic: " ++ impl) else
   if (impl.splitOn "|BUBBLE").length > 1 then ((), "FAIL goroutines still blocked after Close and cancellation: " ++ impl) else
   match (words inp).head? with
+  | some "cancelwait" =>
+    if (impl.splitOn "back=1").length > 1 then ((), "ok")
+    else ((), "FAIL the caller cancelled and every call bound to its context came back, yet the operation has not returned: " ++ impl)
   | some "finish" =>
     let iw := words impl
     let get (k : String) : String :=
